@@ -124,6 +124,11 @@ def cases(tier, seed):
             if len(N) >= 2 and rep == 1:
                 for rm in (1, 2):
                     cs.append({'scen': 'tt_round', 's': dict(base, rmax=rm)})
+    # complex128 copies of a sample (symbolic positive moduli with fixed rational unit phases; arbitrary complex entries for the rank-1 'general' cases)
+    from .C03 import _pick
+    pool = [c for c in cs if 'dtype' not in c['s']]
+    for c in _pick(pool, 24 if not th else 60, rng):
+        cs.append({'scen': 'tt_round', 's': dict(c['s'], dtype='complex128')})
     return cs
 
 
